@@ -534,3 +534,84 @@ package query
 //@   loop 3 invariant forall(j, 0, $i, records[psum(list, rangeindex@2) + j] == rset[j])
 //@   loop 3 modifies records[*]
 //@   modifies nothing
+
+// ---------------------------------------------------------------------------------------------
+// C03 / C05: projection of the select list (View.Fix). The per-row projection runs under GoroutineTaskManager.Run
+// (goroutines: outside the subset; assumed to call the closure once for every row index). Proved here: the decision
+// whether rows need re-projecting, the projection of one row (the closure), and the header construction.
+//@ func (*GoroutineTaskManager).Run
+//@   trusted assumed: calls fn(i) exactly once for every i in [0, recordLen) (RecordRange, proved, partitions that range); returns the first error; writes only its own bookkeeping and what fn writes
+//@   calls fn
+//@   modifies m, key:F:query.GoroutineManager.Count#0
+
+//@ func NewGoroutineTaskManager
+//@   trusted assumed: allocates a manager for recordLen rows with at least one worker; touches only the global worker counter
+//@   ensures result != nil && fresh(result) && result.Number >= 1 && result.recordLen == recordLen
+//@   modifies key:F:query.GoroutineManager.Count#0, key:G:query.gm#0
+
+//@ spec def identitySelection(view *View) bool = len(view.selectFields) == len(view.Header) && forall(q, 0, len(view.Header), view.selectFields[q] == q)
+
+//@ func (*View).Fix
+//@   property C03 C05
+//@   requires view != nil && flags != nil
+//@   requires forall(q, 0, len(view.selectFields), 0 <= view.selectFields[q] && view.selectFields[q] < len(view.Header))
+//@   requires len(view.selectLabels) == 0 || len(view.selectLabels) >= len(view.selectFields)
+//@   assert after call NewEmptyHeader#1: [rows-kept-only-for-identity-selection] !resize ==> len(old(view.selectFields)) == len(old(view.Header)) && forall(q, 0, len(old(view.Header)), old(view.selectFields[q]) == q)
+//@   ensures [header-follows-selection] result == nil ==> len(view.Header) == old(len(view.selectFields)) &&
+//@       forall(q, 0, len(view.Header), view.Header[q].Column == ite(old(len(view.selectLabels)) > 0, old(view.selectLabels[q]), old(view.Header[view.selectFields[q]].Column)) &&
+//@           view.Header[q].View == old(view.Header[view.selectFields[q]].View) && view.Header[q].Number == q + 1)
+//@   loop 1 invariant 0 <= i && i <= len(view.Header) && !resize && fieldLen == len(view.Header) && view.selectFields == old(view.selectFields) && view.Header == old(view.Header) && forall(q, 0, i, view.selectFields[q] == q)
+//@   loop 1 modifies nothing
+//@   loop 2 invariant 0 <= $i && $i <= len(hfields) && len(hfields) == old(len(view.selectFields)) && fresh(hfields) && colNumber == $i
+//@   loop 2 invariant forall(q, 0, $i, hfields[q].Column == ite(old(len(view.selectLabels)) > 0, old(view.selectLabels[q]), old(view.Header[view.selectFields[q]].Column)) &&
+//@           hfields[q].View == old(view.Header[view.selectFields[q]].View) && hfields[q].Number == q + 1)
+//@   loop 2 modifies hfields[*]
+//@   modifies *
+
+//@ func (*View).Fix$1
+//@   property C03 C05
+//@   safety
+//@   requires view != nil && 0 <= index && index < len(view.RecordSet) && fieldLen == len(view.selectFields)
+//@   requires forall(q, 0, len(view.selectFields), 0 <= view.selectFields[q] && view.selectFields[q] < len(view.RecordSet[index]) && len(view.RecordSet[index][view.selectFields[q]]) >= 1)
+//@   ensures [row-projected] result == nil && len(view.RecordSet[index]) == fieldLen &&
+//@       forall(q, 0, fieldLen, view.RecordSet[index][q] == old(view.RecordSet[index][view.selectFields[q]])[:1])
+//@   ensures [other-rows-untouched] forall(k, 0, len(view.RecordSet), k != index ==> view.RecordSet[k] == old(view.RecordSet[k]))
+//@   loop 1 invariant 0 <= $i && $i <= len(view.selectFields) && len(record) == fieldLen && fresh(record) && forall(q, 0, $i, record[q] == view.RecordSet[index][view.selectFields[q]][:1])
+//@   loop 1 modifies record[*]
+//@   loop 2 invariant 0 <= $i && $i <= len(record) && len(record) == fieldLen && len(view.RecordSet[index]) == fieldLen && view.RecordSet == old(view.RecordSet)
+//@   loop 2 invariant forall(q, 0, fieldLen, record[q] == old(view.RecordSet[index][view.selectFields[q]])[:1]) && forall(q, 0, $i, view.RecordSet[index][q] == record[q])
+//@   loop 2 invariant forall(k, 0, len(view.RecordSet), k != index ==> view.RecordSet[k] == old(view.RecordSet[k]))
+//@   loop 2 modifies view.RecordSet[index][*]
+
+// ---------------------------------------------------------------------------------------------
+// C03: USING / NATURAL join columns are merged once (joinViews), small index sets (UintPool)
+//@ spec opaque poolHas(c *UintPool, v uint) bool = exists(q, 0, len(c.values), c.values[q] == v)
+//@ spec def poolWf(c *UintPool) bool = c != nil && c.m != nil && forallv(v, uint, has(c.m, v) <==> exists(q, 0, len(c.values), c.values[q] == v))
+
+//@ func (*UintPool).Exists
+//@   property C03
+//@   safety
+//@   reveal poolHas
+//@   requires poolWf(c)
+//@   ensures [membership] result == poolHas(c, val)
+//@   loop 1 invariant 0 <= $i && $i <= len(c.values) && forall(q, 0, $i, c.values[q] != val)
+//@   loop 1 modifies nothing
+//@   modifies nothing
+
+// one row of the merged join result: column i of the output is input column fieldIndices[i], except that a NULL
+// join column takes the value of its counterpart from the other table (alternatives maps column index to column index)
+//@ func joinViews$2
+//@   property C03
+//@   safety
+//@   requires view != nil && 0 <= index && index < len(view.RecordSet) && fieldLen == len(fieldIndices) && poolWf(includeIndices) && alternatives != nil
+//@   requires forall(q, 0, len(fieldIndices), 0 <= fieldIndices[q] && fieldIndices[q] < len(view.RecordSet[index]) && len(view.RecordSet[index][fieldIndices[q]]) >= 1)
+//@   requires forall(q, 0, len(fieldIndices), 0 <= alternatives[fieldIndices[q]] && alternatives[fieldIndices[q]] < len(view.RecordSet[index]))
+//@   ensures [merged-row] result == nil && len(view.RecordSet[index]) == fieldLen && forall(q, 0, fieldLen,
+//@       view.RecordSet[index][q] == ite(poolHas(includeIndices, fieldIndices[q]) && old(view.RecordSet[index][fieldIndices[q]][0]) == value.null,
+//@            old(view.RecordSet[index][alternatives[fieldIndices[q]]]), old(view.RecordSet[index][fieldIndices[q]])))
+//@   ensures [other-rows-untouched] forall(k, 0, len(view.RecordSet), k != index ==> view.RecordSet[k] == old(view.RecordSet[k]))
+//@   loop 1 invariant 0 <= $i && $i <= len(fieldIndices) && len(record) == fieldLen && fresh(record) && view.RecordSet == old(view.RecordSet)
+//@   loop 1 invariant forall(q, 0, $i, record[q] == ite(poolHas(includeIndices, fieldIndices[q]) && view.RecordSet[index][fieldIndices[q]][0] == value.null,
+//@            view.RecordSet[index][alternatives[fieldIndices[q]]], view.RecordSet[index][fieldIndices[q]]))
+//@   loop 1 modifies record[*]
+//@   modifies view.RecordSet[*]
